@@ -94,7 +94,7 @@ func genCase(t *rapid.T) Case {
 		sizeGen = rapid.OneOf(rapid.IntRange(1, 64), big, big)
 	}
 	opGen := rapid.Custom(func(t *rapid.T) Op {
-		k := rapid.SampledFrom([]string{"ins", "ins", "ins", "ins", "insfill", "get", "over", "over", "overbad", "del", "del", "writeload", "writeat", "snapcopy", "empty", "toolarge"}).Draw(t, "k")
+		k := rapid.SampledFrom([]string{"ins", "ins", "ins", "ins", "insfill", "get", "over", "over", "overbad", "del", "del", "writeload", "writeat", "snapcopy", "failload", "empty", "toolarge"}).Draw(t, "k")
 		op := Op{K: k, Seed: rapid.IntRange(0, 1<<20).Draw(t, "seed")}
 		switch k {
 		case "ins":
@@ -471,6 +471,31 @@ func run(c Case) vt.Verdict {
 		case "writeat":
 			if v := writeLoad(step, op, true); v != nil {
 				return *v
+			}
+		case "failload":
+			// the handle is asked to load another heap whose header reads fine but whose direct block does not belong to it
+			// (a copy of the current header at another address: the block it names still names the original header); the load
+			// is refused and the handle goes on as the heap it was
+			if !loaded {
+				continue
+			}
+			hs := 4 + 1 + 2 + 2 + 1 + 4 + 10*lenS + 2*offS + 2 + 2*lenS + 2 + 2 + offS + 2 + 4
+			if hdrAddr+uint64(hs) > uint64(len(file.Data)) {
+				continue
+			}
+			b, err := file.Allocate(uint64(hs))
+			if err != nil {
+				continue
+			}
+			if err := file.WriteAtAddress(append([]byte{}, file.Data[hdrAddr:hdrAddr+uint64(hs)]...), b); err != nil {
+				continue
+			}
+			before := snapshot(fh)
+			if err := fh.LoadFromFile(file, b, sb); err == nil {
+				return vt.Bad("step %d (%s): LoadFromFile accepted a header copy at %d whose direct block names the header at %d", step, op.K, b, hdrAddr)
+			}
+			if d := diffSnap(before, snapshot(fh)); d != "" {
+				return fail(step, op, "refused LoadFromFile changed the heap: %s", d)
 			}
 		case "snapcopy":
 			// a copy of the current state is saved somewhere else; the heap object goes on working on its own location
